@@ -83,7 +83,18 @@ def secwithin_cases(cid, kind, placement, rng):
                      "cfg": rng.choice(["sec_within", "sec_within", "sec_within,segment", "segment,sec_within,parse_qq"])}}
 
 
+def vary_cfg_form(cases, rng):
+    """a quarter of the cases hand the varied configuration over as a Config object that spells out every mode switch"""
+    for c in cases:
+        if rng.random() < 0.25:
+            c["args"]["cfg_form"] = rng.choice(["kwargs_full", "dict_full"])
+    return cases
+
+
 def check(ctx, cases):
+    vary_cfg_form([c for c in cases if "cfg_form" not in c["args"] and not c["args"].get("_form_fixed")], ctx.rng)
+    for c in cases:
+        c["args"]["_form_fixed"] = True
     obs = ctx.impl_map("c20", cases)
     recs, by_id = [], {}
     for c in cases:
